@@ -187,13 +187,13 @@ def proc_project(calls, with_prog, with_generic, nograph=None, entmeta=None):
             rel["calls"].add(("program~prog", "interface~gen"))
     if with_prog == "intfn":
         # besides: a module procedure whose CONTAINS part holds internal functions only (proc_internals on, see run_case)
-        files["src/pm2.f90"] = ("module pm2\nimplicit none\ncontains\nsubroutine hostf()\n!! hostf\ninteger :: r\nr = inf1(1)\ncontains\n"
+        files["src/pm2.f90"] = ("module pm2\nuse pm, only: p1\nimplicit none\ncontains\nsubroutine hostf()\n!! hostf\ninteger :: r\nr = inf1(1)\ncontains\n"
                                 "integer function inf1(a)\n!! inf1\ninteger :: a\ninf1 = inf2(a)\nend function inf1\n"
                                 "integer function inf2(a)\n!! inf2\ninteger :: a\ninf2 = a\nend function inf2\n"
-                                "integer function spare(a)\n!! spare, called by nobody\ninteger :: a\nspare = inf2(a)\nend function spare\n"
+                                "integer function spare(a)\n!! spare, called by nobody\ninteger :: a\nspare = inf2(a)\ncall p1(a)\nend function spare\n"
                                 "end subroutine hostf\nend module pm2\n")
         # (internal procedures of a procedure have no page of their own: FORD's node id for them is none~<name>, and they get no graphs of their own)
-        rel["calls"] |= {("proc~hostf", "none~inf1"), ("none~inf1", "none~inf2"), ("none~spare", "none~inf2")}
+        rel["calls"] |= {("proc~hostf", "none~inf1"), ("none~inf1", "none~inf2"), ("none~spare", "none~inf2"), ("none~spare", "proc~p1")}
         rel["nodes"] |= {"proc~hostf", "none~inf1", "none~inf2", "none~spare"}
     if with_prog == "f77":
         # besides: an old-style driver without any USE that works with its own internal procedures only
